@@ -303,7 +303,7 @@ def check_hash_to_point_routing(ctx, P, rule="E1.h2c"):
         site = [s for s in ev.sites.values() if s.callee[0] == name]
         path = site[0].raw["callee"]["path"] if site else ""
         # random-oracle map, not the non-uniform `encode`
-        ctx.ob(rule + ".ro", f.key, ok_shape and name == "hash" and path.endswith("::hash"), "hash_to_point must end in the backend's random-oracle `hash` (found `%s`)" % path, where=where(f))
+        ctx.ob(rule + ".ro", f.key, ok_shape and name in ("G1Projective::hash", "G2Projective::hash") and path.endswith("::hash"), "hash_to_point must end in the backend's random-oracle `hash` (found `%s`)" % path, where=where(f))
         exp = gargs[0] if gargs else ""
         ok_exp = exp.startswith("ExpandMsgXmd<") and "Sha256VarCore" in exp and "OidSha256" in exp and "UInt<UInt<UInt<UInt<UInt<UInt<UTerm, B1>, B0>, B0>, B0>, B0>, B0>" in exp
         ctx.ob(rule + ".expander", f.key, ok_exp, "expander generic argument is `%s` (want ExpandMsgXmd<Sha256>, 32-byte output)" % exp[:120], where=where(f))
@@ -324,7 +324,7 @@ def check_keygen(ctx, P, rule="E5.keygen"):
     ev = evaluate(f)
     fin = [s for s in ev.sites.values() if s.callee[0].endswith("::finalize") and "HkdfExtract" in s.callee[0]]
     exp = [s for s in ev.sites.values() if s.callee[0].endswith("::expand") and "Hkdf" in s.callee[0]]
-    okm = [s for s in ev.sites.values() if s.callee[0] == "from_okm" or s.callee[0].endswith("::from_okm")]
+    okm = [s for s in ev.sites.values() if s.callee[0].endswith("::from_okm")]
     if not (fin and exp and okm):
         ctx.ob(rule + ".anchor", "hkdf-chain", False, "HKDF extract/expand/from_okm chain not found in scalar_from_hkdf_bytes (missing anchor)", where=where(f))
         return
